@@ -573,7 +573,11 @@ def _exec(case, log, stats, saved):
             continue
         if pred["t"] == "builtin":
             try:
-                expected = "accept" if saved[name](inner) else "reject"
+                # consult the original checker under the same warning filters
+                # as the validation (a third-party parser may warn)
+                with warnings.catch_warnings():
+                    warnings.simplefilter("error" if op.get("wmode") == "error" else "ignore")
+                    expected = "accept" if saved[name](inner) else "reject"
             except Exception:  # pylint: disable=broad-except
                 stats.inc("builtin_checker_raised")
                 continue
